@@ -17,6 +17,14 @@ Definition curve_close (model : res (Curve FOps)) (impl : option (Curve FOps)) :
   | _, _ => false
   end.
 
+(* a loaded DiffusionCurveSet: the same number of curves, pairwise close, in the same order *)
+Definition set_close (model : res (list (Curve FOps))) (impl : option (list (Curve FOps))) : bool :=
+  match model, impl with
+  | Ok a, Some b => list_eqb (fun x y => curve_close (Ok x) (Some y)) a b
+  | Err _, None => true
+  | _, _ => false
+  end.
+
 Definition saved_same (model : res (list (list (Cell FOps)))) (file : list (list (Cell FOps))) : bool :=
   match model with Ok t => table_eqb true t file | Err _ => false end.
 
